@@ -226,7 +226,89 @@ func (a *Act) doCall(st *State, com *ssa.CallCommon, pos tokenPos, site ssa.Valu
 		}
 		return a.opaqueCall(st, "dynamic call "+com.Value.Name()+" in "+fnName(a.fn), sig, pos)
 	}
-	return a.callFn(st, callee, args, env, pos, sig)
+	res := a.callFn(st, callee, args, env, pos, sig)
+	a.sortedAfterCompareSort(st, callee, com)
+	return res
+}
+
+// sortedAfterCompareSort: after compare.Sort(ts, cmp) - a thin wrapper of sort.Slice with
+// less(i, j) = (cmp(ts[i], ts[j]) == Smaller) - the slice is ordered by the comparator: for i < j,
+// cmp(ts[j], ts[i]) is not Smaller. This is the contract of the standard library's sort (trusted, like the
+// permutation), stated through the CONTRACT of the comparator when that is a statically known function
+// under contract: a fresh function R(j, i) stands for the comparator's result on the elements at j and i,
+// constrained by the comparator's postconditions.
+func (a *Act) sortedAfterCompareSort(st *State, callee *ssa.Function, com *ssa.CallCommon) {
+	if a.spec || callee == nil || len(com.Args) != 2 {
+		return
+	}
+	o := callee
+	if callee.Origin() != nil {
+		o = callee.Origin()
+	}
+	if o.Pkg == nil || o.Pkg.Pkg.Path() != ModulePath+"/lib/common/compare" || o.Name() != "Sort" {
+		return
+	}
+	var cmp *ssa.Function
+	switch x := com.Args[1].(type) {
+	case *ssa.Function:
+		cmp = x
+	case *ssa.MakeClosure:
+		if len(x.Bindings) == 0 {
+			cmp, _ = x.Fn.(*ssa.Function)
+		}
+	}
+	if cmp == nil || len(cmp.Params) != 2 {
+		return
+	}
+	fc := a.u.E.Contracts[cmp]
+	if fc == nil || fc.Trusted {
+		return
+	}
+	sl, ok := types.Unalias(com.Args[0].Type()).Underlying().(*types.Slice)
+	if !ok {
+		return
+	}
+	d := a.u.D
+	s := a.term(com.Args[0])
+	lh := a.elemHeap(sl.Elem())
+	heap := st.heap(lh.name, lh.sort)
+	at := func(ix string) Term { return hsel(a.u, heap, lh.addr(app("saddr", s, ix))) }
+	*a.top.qnPtr()++
+	i, j := fmt.Sprintf("i!s%d", *a.top.qnPtr()), fmt.Sprintf("j!s%d", *a.top.qnPtr())
+	r := d.Fun(fmt.Sprintf("sortcmp!%d", *a.top.qnPtr()), []string{"Int", "Int"}, "Int")
+	rt := app(r, j, i)
+	var cs []Term
+	nFacts, nConsts := len(a.u.Facts), d.n
+	err := catch(func() {
+		env := a.fnEnv(cmp, []Val{{T: at(j), Typ: cmp.Params[0].Type()}, {T: at(i), Typ: cmp.Params[1].Type()}}, nil, st, st, []Val{{T: rt, Typ: cmp.Signature.Results().At(0).Type()}})
+		for _, cl := range fc.Clauses {
+			if cl.Kind != "ensures" || cl.Loop != 0 || mentionsTrace(cl.Expr) {
+				continue
+			}
+			cs = append(cs, a.evalClause(env, cl))
+		}
+	})
+	// facts recorded while evaluating the clauses (typing facts of the loaded elements) mention the bound
+	// indices: they belong inside the quantifier; fresh constants defined in terms of them cannot be kept
+	side := append([]Term{}, a.u.Facts[nFacts:]...)
+	a.u.Facts = a.u.Facts[:nFacts]
+	if err != nil || len(cs) == 0 || d.n != nConsts {
+		return
+	}
+	cs = append(side, cs...)
+	cs = append(cs, not(eq(rt, "(- 1)")))
+	a.u.Trusted["sort.Slice leaves the slice ordered by its comparator (compare.Sort with "+fnName(cmp)+"; the comparator's preconditions are assumed to hold for the elements)"] = true
+	a.u.Fact(fmt.Sprintf("(forall ((%s Int) (%s Int)) (! (=> (and (<= 0 %s) (< %s %s) (< %s (slen %s))) %s) :pattern ((%s %s %s))))", i, j, i, i, j, j, s, and(cs...), r, j, i))
+	// make the instances available: R(j, i) is mentioned for every pair through its definition only, so give
+	// the solver the elements as additional triggers
+	a.u.Fact(fmt.Sprintf("(forall ((%s Int) (%s Int)) (! (=> (and (<= 0 %s) (< %s %s) (< %s (slen %s))) %s) :pattern (%s %s)))", i, j, i, i, j, j, s, and(cs...), at(i), at(j)))
+}
+
+func (a *Act) qnPtr() *int {
+	if a.qn == nil {
+		a.qn = new(int)
+	}
+	return a.qn
 }
 
 func (a *Act) callFn(st *State, callee *ssa.Function, args []Val, env []Val, pos tokenPos, sig *types.Signature) Val {
